@@ -204,7 +204,10 @@ func Intersection(a0, a1, b0, b1 Point) Point {
 		pt = Point{pt.Mul(-1)}
 	}
 
-	return pt
+	// Adding +0 turns a negative zero coordinate into +0 and changes nothing
+	// else, so that the result is bit-identical (not merely ==) when the edges
+	// are swapped or reversed.
+	return Point{pt.Add(r3.Vector{})}
 }
 
 // Computes the cross product of two vectors, normalized to be unit length.
